@@ -9,6 +9,8 @@ import (
 	"go/types"
 	"math/big"
 	"strings"
+
+	"golang.org/x/tools/go/ssa"
 )
 
 type specEnv struct {
@@ -22,6 +24,7 @@ type specEnv struct {
 	pkg     *types.Package // package for resolving constants / types (defaults to e.pkg)
 	inSpec  bool           // inside a spec function body: heap reads go through formals
 	fvs     map[string]Val // captured variables of a closure: name -> address of its cell (read in env.st)
+	visRange *ssa.Range    // in a loop invariant of a map-range loop: the iterator whose visited set visited(k) names
 }
 
 type specSig struct {
@@ -758,6 +761,15 @@ func (env *specEnv) call(n *ECall) Val {
 			as = append(as, env.eval(a))
 		}
 		return e.applyTerm(f, as, env)
+	case "visited":
+		// visited(k): key k has already been produced by the map iteration of the loop this invariant belongs to
+		if env.visRange == nil {
+			sfail("visited(k) outside the invariant of a loop ranging over a map")
+		}
+		mt := env.visRange.X.Type().Underlying().(*types.Map)
+		kv := env.typed(env.eval(n.Args[0]), mt.Key())
+		r := env.visRange
+		return env.withState(env.st, func() Val { return Val{T: tBool, L: []string{e.visitedTerm(r, kv)}} })
 	case "has":
 		// has(m, k): key k is present in map m
 		m := env.eval(n.Args[0])
